@@ -3,7 +3,7 @@
    the reference reading gives the row; the edges of the row; the groups. *)
 From Coq Require Import List NArith Bool Arith Lia.
 From RPFT Require Import Base.Sexp Base.PyStr Base.PyStrFacts Base.Result Gen.Tables Flow.Lts Flow.Flow Flow.Closed
-     Flow.RowSem Comp.Compile Comp.CompileFacts Comp.CompileIds Comp.CompileInv Comp.CompileStep Comp.Refine Comp.RefineFacts Comp.RefineStore
+     Flow.RowSem Comp.Compile Comp.CompileFacts Comp.CompileIds Comp.CompileInv Comp.CompileStep Comp.CompileClass Comp.Refine Comp.RefineFacts Comp.RefineStore
      Comp.RefineEdge Comp.RefineGroup.
 Import ListNotations.
 
@@ -220,5 +220,113 @@ Proof.
     destruct (cadd_row_edge fresh sc e dd) as [c1|x] eqn:E2; [|discriminate]. intros H1 H2.
     destruct (add_row_edge_sim phi sr sc e tgt dd s1 c1 Hsim Hst He Hd E1 E2) as (phi1 & S1 & L1 & T1 & X1 & F1 & P1).
     eapply step_post_trans; eauto. eapply IH; eauto. eapply dest_sim_mono; [exact L1|apply ext_grows, X1|exact Hd].
+Qed.
+
+(* ---------------------------------------------------------------- the rows *)
+Hypothesis GP_ns : forall u, GP u -> u <> hard_exit_sentinel.
+
+Lemma uuid_not_sentinel sc k nd : StOK fresh GP sc -> nth_error (cs_nodes sc) k = Some nd -> cn_uuid nd <> hard_exit_sentinel.
+Proof.
+  intros Hst Hk. destruct (StOK_nth fresh GP _ _ _ Hst Hk) as [H1 _ _ H4]. destruct (cn_given nd) eqn:Eg.
+  - apply GP_ns, H4. reflexivity.
+  - destruct (H1 eq_refl) as (j & _ & ->). apply fresh_not_sentinel.
+Qed.
+
+Lemma class_pres_fold_edges es sc dd sc' :
+  foldM (fun s' e => cadd_row_edge fresh s' e dd) es sc = Ok sc' -> class_pres sc sc'.
+Proof. apply class_pres_foldM. intros a x b. apply cadd_row_edge_class. Qed.
+
+Lemma basic_acts (payloads : list sexp) acts n1 next :
+  length payloads <= 1 ->
+  match match payloads with p :: _ => Some p | [] => None end with
+  | Some p => ([(fresh next, p)], S next) | None => ([], next) end = (acts, n1) ->
+  map snd acts = payloads /\ next <= n1 /\ Forall (below fresh n1) (map fst acts) /\ FreshList fresh next n1 (map fst acts).
+Proof.
+  destruct payloads as [|p [|q r]]; cbn; intros Hl H; try lia; injection H as <- <-; cbn.
+  - split; [reflexivity|]. split; [lia|]. split; [constructor|apply FreshList_nil].
+  - split; [reflexivity|]. split; [lia|]. split; [constructor; [apply below_fresh; lia|constructor]|apply FreshList_one; lia].
+Qed.
+
+(* a node row (not merged into another) *)
+Lemma node_row_sim phi sr sc cr cls payloads dec0 sr' sc' :
+  Sim phi sr sc -> StOK fresh GP sc -> row_ok cr -> r_type (cr_row cr) = TNode cls payloads dec0 ->
+  step_row nab sr (cr_row cr) = Some sr' -> cstep fresh sc cr = Ok sc' ->
+  exists phi', Sim phi' sr' sc'.
+Proof.
+  intros Hsim Hst [Hedges Hrow] Ht. rewrite Ht in Hrow. destruct Hrow as (Hname & Huuid & -> & -> & Hacts).
+  unfold step_row, cstep. rewrite Ht, Hname, Huuid. cbn [or_default].
+  set (kind := cr_kind cr) in *.
+  set (row_action := if is_basic_kind kind then match payloads with p :: _ => Some p | [] => None end else None).
+  destruct (match row_action with Some p => ([(fresh (cs_next sc), p)], S (cs_next sc)) | None => ([], cs_next sc) end) as [acts n1] eqn:Eacts.
+  assert (Hacts' : acts_ok kind acts payloads /\ cs_next sc <= n1 /\ Forall (below fresh n1) (map fst acts)
+                   /\ FreshList fresh (cs_next sc) n1 (map fst acts)).
+  { assert (Hnone : forall n, ([] : list (id * sexp), n) = (acts, n1) ->
+                               acts = [] /\ cs_next sc <= n1 /\ Forall (below fresh n1) (map fst acts) /\ FreshList fresh (cs_next sc) n1 (map fst acts) \/ n <> cs_next sc).
+    { intros n H. destruct (Nat.eq_dec n (cs_next sc)) as [->|Hne]; [left|right; exact Hne]. injection H as <- <-.
+      split; [reflexivity|]. split; [lia|]. split; [constructor|apply FreshList_nil]. }
+    unfold row_action in Eacts. destruct kind; cbn [is_basic_kind acts_ok] in *; try contradiction.
+    - exact (basic_acts _ _ _ _ Hacts Eacts).
+    - exact (basic_acts _ _ _ _ Hacts Eacts).
+    - destruct (Hnone _ Eacts) as [(-> & H2 & H3 & H4)|Hne]; [|contradiction]. auto.
+    - destruct (Hnone _ Eacts) as [(-> & H2 & H3 & H4)|Hne]; [|contradiction]. auto.
+    - destruct (Hnone _ Eacts) as [(-> & H2 & H3 & H4)|Hne]; [|contradiction]. auto.
+    - destruct (Hnone _ Eacts) as [(-> & H2 & H3 & H4)|Hne]; [|contradiction].
+      destruct payloads as [|p [|? ?]]; cbn in Hacts; try lia. split; [split; [reflexivity|eexists; reflexivity]|auto].
+    - destruct (Hnone _ Eacts) as [(-> & H2 & H3 & H4)|Hne]; [|contradiction].
+      destruct payloads as [|p [|? ?]]; cbn in Hacts; try lia. split; [split; [reflexivity|eexists; reflexivity]|auto].
+    - destruct (Hnone _ Eacts) as [(-> & H2 & H3 & H4)|Hne]; [|contradiction].
+      destruct payloads as [|p [|? ?]]; cbn in Hacts; try lia. split; [split; [reflexivity|eexists; reflexivity]|auto]. }
+  destruct Hacts' as (Haok & Hn1 & Hbelow & Hfresh).
+  (* the merge branch is not taken: there is no node name *)
+  assert (Hnomerge : forall (X : Type) (a b : X), match row_action with Some _ => b | None => b end = b) by (intros; destruct row_action; reflexivity).
+  change (match payloads with p :: _ => p | [] => L [] end) with (payload_of payloads).
+  destruct (new_row_node fresh n1 kind [] acts (payload_of payloads)) as [[nd n2]|x] eqn:En.
+  2:{ intros _ H. destruct row_action; discriminate. }
+  destruct (new_row_node_sim (phi ++ [(length (cs_nodes sc), None)]) (cuu sc ++ [cn_uuid nd]) n1 kind acts payloads nd n2 Haok En) as [Hns Hcls].
+  destruct (new_row_node_ok fresh GP fresh_inj n1 (uuids sc ++ [cn_uuid nd]) kind [] acts (payload_of payloads) nd n2) as (N1 & N2 & _);
+    [intros Hne; contradiction|exact Hbelow|exact En|].
+  destruct (new_row_node_ids fresh fresh_inj (cs_next sc) n1 kind [] acts (payload_of payloads) nd n2 Hn1 Hfresh En) as (_ & Fn).
+  set (n0 := mkRNode payloads (kind_dec0 kind) DNone) in *.
+  set (k := length (s_nodes sr)). set (j := length (cs_nodes sc)) in *.
+  set (phi1 := phi ++ [(j, None)]) in *.
+  pose proof (Sim_push phi sr sc n0 nd n2 Hsim Hns) as Hsim1. fold j phi1 in Hsim1.
+  assert (Hst1 : StOK fresh GP (push_node sc nd n2)) by (apply (push_StOK fresh GP fresh_inj); [exact Hst|lia|exact N2|exact Fn]).
+  set (es := match r_edges (cr_row cr) with [] => [] | e0 :: rest => e0 :: filter (fun e => negb (edge_trivial e)) rest end).
+  assert (Hes : Forall edge_ok es).
+  { unfold es. destruct (r_edges (cr_row cr)) as [|e0 rest]; [constructor|]. inversion Hedges as [|? ? H0 Hr]; subst.
+    constructor; [exact H0|]. rewrite Forall_forall in *. intros e He. apply filter_In in He as [He _]. auto. }
+  cbv zeta. change (add_node sr (mkRNode payloads (kind_dec0 kind) DNone)) with (RowSem.add_node sr n0).
+  destruct (RowSem.add_node sr n0) as [sr1 k'] eqn:Eadd. unfold RowSem.add_node in Eadd. injection Eadd as <- <-. fold k.
+  intros Hr Hc.
+  assert (Hr' : match fold_edges nab (mkSt (s_nodes sr ++ [n0]) (s_groups sr) (s_rowmap sr) (s_names sr) (s_stack sr)) es (fun _ => DNode k) with
+                | Some s2 => Some (fst (RowSem.add_group s2 (GRow k (kind_cls kind)) (r_id (cr_row cr))))
+                | None => None end = Some sr').
+  { destruct (fold_edges _ _ es _) as [s2|]; [|discriminate]. destruct (RowSem.add_group s2 _ _) as [s3 g3] eqn:Eg.
+    unfold push_names in Hr. injection Hr as <-. reflexivity. }
+  clear Hr.
+  assert (Hc' : match foldM (fun s' e => cadd_row_edge fresh s' e (Some (cn_uuid nd))) es (push_node sc nd n2) with
+                | Ok s2 => Ok (set_names (add_cgroup s2 (CGRow j [] (rowtype_of kind)) (r_id (cr_row cr))) [] j)
+                | Err x => Err x end = Ok sc') by (destruct row_action; exact Hc).
+  clear Hc.
+  destruct (fold_edges nab _ es _) as [sr2|] eqn:Ef1; [|discriminate]. injection Hr' as <-.
+  destruct (foldM _ es (push_node sc nd n2)) as [sc2|x] eqn:Ef2; [|discriminate]. injection Hc' as <-.
+  assert (Hd1 : dest_sim phi1 (cuu (push_node sc nd n2)) (DNode k) (Some (cn_uuid nd))).
+  { cbn. split.
+    - eapply (uuid_not_sentinel (push_node sc nd n2) j); [exact Hst1|]. cbn. unfold j. apply nth_error_app2_same.
+    - exists (j, None). split.
+      + unfold phi1, k. rewrite <- (sim_len _ _ _ Hsim). apply nth_error_app2_same.
+      + cbn. unfold cuu. cbn. rewrite map_app. cbn. unfold j. rewrite <- (map_length cn_uuid (cs_nodes sc)). apply nth_error_app2_same. }
+  destruct (fold_edges_sim es phi1 _ _ (DNode k) (Some (cn_uuid nd)) sr2 sc2 Hsim1 Hst1 Hes Hd1 Ef1 Ef2) as (phi2 & Hs2 & Hle2 & Ht2 & He2 & Hf2 & Hp2).
+  (* the new node is still alone in its cluster, unchanged on the reference side, of the same class on the compiled side *)
+  assert (Hknew : ~ In k (flat_map grow_node (s_groups sr))) by (intros Hin; pose proof (grow_bound phi sr sc _ Hsim Hin); unfold k in *; lia).
+  assert (Hk2 : nth_error phi2 k = Some (j, None)).
+  { apply Hp2; [cbn; rewrite app_length; cbn; unfold k; lia|exact Hknew|]. unfold phi1, k. rewrite <- (sim_len _ _ _ Hsim). apply nth_error_app2_same. }
+  destruct (class_pres_fold_edges _ _ _ _ Ef2 j nd) as (nd2 & Hj2 & Hcl2); [cbn; unfold j; apply nth_error_app2_same|].
+  exists phi2.
+  assert (G : Sim phi2 (fst (RowSem.add_group sr2 (GRow k (kind_cls kind)) (r_id (cr_row cr)))) (add_cgroup sc2 (CGRow j [] (rowtype_of kind)) (r_id (cr_row cr)))).
+  { apply Sim_add_group; [exact Hs2| | |intros ps k0; discriminate].
+    - apply (GS_row phi2 (cs_nodes sc2) k (kind_cls kind) (j, None) (rowtype_of kind) nd2); [exact Hk2|exact Hj2|eapply class_ok_same; eauto].
+    - intros x [<-|[]]. apply (gframe_grow _ _ k Hf2); [cbn; rewrite app_length; cbn; unfold k; lia|exact Hknew]. }
+  destruct G as [G1 G2 G3 G4 G5 G6 G7 G8]. constructor; assumption.
 Qed.
 End Step.
